@@ -316,10 +316,8 @@ static std::vector<long long> family_seq(const std::string& fam, std::size_t n, 
    return s;
 }
 
-int main(int argc, char** argv)
+static void body(Ctx& C)
 {
-   auto& C = ctx();
-   C.parse(argc, argv);
    Rng rng(C.seed);
    C.rule("insertion sequences into util::rb_tree::chain (intrusive) and ::container (owning), validated by a structural "
           "red-black/BST/parent-link/height/size/membership oracle after every insertion (every 1024th beyond 2000 elements); "
@@ -419,6 +417,6 @@ int main(int argc, char** argv)
    C.exhaustive(false);
    C.extra("exhaustive_subspaces", J().s("permutations", "all permutations of 1..n for n<=" + std::to_string(maxn) + " (both flavours, validated after every insertion)")
            .s("dup_sequences", std::string("all sequences over 5 symbols of length<=") + (C.thorough ? "7" : "6") + " and over 3 symbols of length<=" + (C.thorough ? "9" : "8") + " (owning)").str());
-   C.finish();
-   return 0;
 }
+
+int main(int argc, char** argv) { return guarded_main(argc, argv, body); }
